@@ -1,11 +1,209 @@
-(* Property C07 — theorems only.  Models: Model/C07_{Spea2,Nsga3,RefPoints}.v (deap/tools/emo.py). *)
-From Coq Require Import List ZArith QArith Bool.
+(* Property C07 — theorems only.
+   Models: Model/C07_Spea2.v, Model/C07_Nsga3.v, Model/C07_RefPoints.v (deap/tools/emo.py).
+   Individuals are identified with their index in the input list, so "input objects, none twice"
+   reads: indices < n, NoDup.  Every theorem quantifies over ALL random draws (pivot draws of
+   _randomizedSelect, numpy.random.shuffle outcomes). *)
+From Coq Require Import List ZArith QArith Bool Permutation Lia.
 From DV Require Import Base.PyList Base.C07_Num Model.C07_Spea2 Model.C07_Nsga3 Model.C07_RefPoints
-                       Proofs.C07_Spea2.
+                       Proofs.C07_Spea2 Proofs.C07_Nsga3 Proofs.C07_RefPoints.
 Import ListNotations.
+Local Open Scope nat_scope.
 
-Theorem C07_dominates_asym : forall {T} (Op : numops T),
+(* ================================================================== *)
+(* SPEA2 *)
+
+(* generic form: for any numeric instance whose comparison is asymmetric and orders
+   -1 < squared distances < inf (true of IEEE doubles on finite inputs, proved below for Q) *)
+Theorem C07_spea2_generic : forall {T} (Op : numops T),
   (forall x y, n_ltb Op x y = true -> n_ltb Op y x = false) ->
-  forall a b, dominates Op a b = true -> dominates Op b a = false.
-Proof. intros T Op H. exact (dominates_asym Op H). Qed.
-Print Assumptions C07_dominates_asym.
+  forall vals wvals k draws, dist_ok Op vals -> 1 <= k <= length wvals ->
+  let r := fst (spea2 Op vals wvals k draws) in
+  length r = k /\ NoDup r /\ (forall i, In i r -> i < length wvals) /\
+  (length (nd_list Op wvals) <= k -> incl (nd_list Op wvals) r) /\
+  (k <= length (nd_list Op wvals) -> incl r (nd_list Op wvals)).
+Proof. intros T Op H. exact (spea2_spec Op H). Qed.
+Print Assumptions C07_spea2_generic.
+
+(* nd_list is exactly the set of non-dominated individuals *)
+Theorem C07_nd_list_spec : forall {T} (Op : numops T) (w : list (list T)) i,
+  In i (nd_list Op w) <->
+  (i < length w /\ forall j, j < length w -> dominates Op (nth j w []) (nth i w []) = false).
+Proof.
+  intros T Op w i. unfold nd_list. rewrite filter_In, in_seq, nd_b_spec. unfold nondominated.
+  split; intros [H1 H2]; (split; [lia|exact H2]).
+Qed.
+Print Assumptions C07_nd_list_spec.
+
+(* exact instance, finite fitness values (vq), any weighted values, any draws *)
+Theorem C07_spea2_size_refs : forall (vq : list (list Q)) (wvals : list (list qx)) k draws,
+  1 <= k <= length wvals ->
+  let r := fst (spea2 qx_ops (map (map QF) vq) wvals k draws) in
+  length r = k /\ NoDup r /\ (forall i, In i r -> i < length wvals).
+Proof.
+  intros vq wvals k draws Hk.
+  destruct (spea2_spec qx_ops qx_ltb_asym (map (map QF) vq) wvals k draws (dist_ok_qx vq) Hk) as [A [B [C _]]].
+  auto.
+Qed.
+Print Assumptions C07_spea2_size_refs.
+
+Theorem C07_spea2_all_nd_when_few : forall (vq : list (list Q)) (wvals : list (list qx)) k draws,
+  1 <= k <= length wvals -> length (nd_list qx_ops wvals) <= k ->
+  incl (nd_list qx_ops wvals) (fst (spea2 qx_ops (map (map QF) vq) wvals k draws)).
+Proof.
+  intros vq wvals k draws Hk.
+  destruct (spea2_spec qx_ops qx_ltb_asym (map (map QF) vq) wvals k draws (dist_ok_qx vq) Hk) as [_ [_ [_ [D _]]]].
+  exact D.
+Qed.
+Print Assumptions C07_spea2_all_nd_when_few.
+
+Theorem C07_spea2_only_nd_when_many : forall (vq : list (list Q)) (wvals : list (list qx)) k draws,
+  1 <= k <= length wvals -> k <= length (nd_list qx_ops wvals) ->
+  incl (fst (spea2 qx_ops (map (map QF) vq) wvals k draws)) (nd_list qx_ops wvals).
+Proof.
+  intros vq wvals k draws Hk.
+  destruct (spea2_spec qx_ops qx_ltb_asym (map (map QF) vq) wvals k draws (dist_ok_qx vq) Hk) as [_ [_ [_ [_ E]]]].
+  exact E.
+Qed.
+Print Assumptions C07_spea2_only_nd_when_many.
+
+(* ================================================================== *)
+(* NSGA-III *)
+
+(* numpy.random.shuffle as modelled: every draw gives a permutation, every permutation has a draw *)
+Theorem C07_shuffle_perm : forall (l : list nat) code, Permutation (shuffle l code) l.
+Proof. intros. apply shuffle_perm. Qed.
+Print Assumptions C07_shuffle_perm.
+
+Theorem C07_shuffle_surjective : forall (l l' : list nat), Permutation l l' -> exists code, shuffle l code = l'.
+Proof. intros. now apply shuffle_surjective. Qed.
+Print Assumptions C07_shuffle_surjective.
+
+(* niching selects exactly k distinct members of the last front (positions 0..m-1), for all draws *)
+Theorem C07_niching_exact : forall (niches : list nat) (dist : list Q) (R k : nat) (counts0 : list nat) draws,
+  (forall i, i < length niches -> nth i niches 0 < R) -> length counts0 = R -> k <= length niches ->
+  let s := niching q_ltb 0%Q k niches dist counts0 draws in
+  niching_ok k s = true /\ length (ns_sel s) = k /\ NoDup (ns_sel s) /\
+  (forall i, In i (ns_sel s) -> i < length niches) /\
+  (forall c, c < R -> nth c (ns_counts s) 0 = nth c counts0 0 + cnt_sel niches (ns_sel s) c).
+Proof.
+  intros niches dist R k counts0 draws Hn Hc Hk.
+  destruct (niching_spec q_ltb 0%Q niches dist R Hn k counts0 draws Hc Hk) as [A [B [C [D [E _]]]]].
+  auto.
+Qed.
+Print Assumptions C07_niching_exact.
+
+(* DESIGN A5: a niche that received a last-front member never ends more than one above a niche
+   that still had a candidate left *)
+Theorem C07_niching_balanced : forall (niches : list nat) (dist : list Q) (R k : nat) (counts0 : list nat) draws,
+  (forall i, i < length niches -> nth i niches 0 < R) -> length counts0 = R -> k <= length niches ->
+  let s := niching q_ltb 0%Q k niches dist counts0 draws in
+  forall a b,
+    (exists i, In i (ns_sel s) /\ nth i niches 0 = a) ->                              (* a received a member *)
+    (exists i, i < length niches /\ ~ In i (ns_sel s) /\ nth i niches 0 = b) ->      (* b has a candidate left *)
+    nth a (ns_counts s) 0 <= nth b (ns_counts s) 0 + 1.
+Proof.
+  intros niches dist R k counts0 draws Hn Hc Hk.
+  destruct (niching_spec q_ltb 0%Q niches dist R Hn k counts0 draws Hc Hk) as [_ [_ [_ [_ [_ F]]]]].
+  exact F.
+Qed.
+Print Assumptions C07_niching_balanced.
+
+(* selNSGA3 given the sorted fronts and any association into R niches *)
+Theorem C07_nsga3_size_refs : forall (fronts : list (list nat)) (k R : nat) (niches : list nat) (dist : list Q) draws,
+  fronts <> [] -> NoDup (concat fronts) ->
+  length niches = length (concat fronts) -> Forall (fun c => c < R) niches ->
+  length (concat (removelast fronts)) < k <= length (concat fronts) ->
+  let o := nsga3_core q_ltb 0%Q fronts k R niches dist draws in
+  o_ok o = true /\ length (o_chosen o) = k /\ NoDup (o_chosen o) /\ incl (o_chosen o) (concat fronts).
+Proof.
+  intros fronts k R niches dist draws H1 H2 H3 H4 H5.
+  destruct (nsga3_core_spec q_ltb 0%Q fronts k R niches dist draws H1 H2 H3 H4 H5) as [A [B [C [D _]]]]. auto.
+Qed.
+Print Assumptions C07_nsga3_size_refs.
+
+(* relative to fronts_correct: if `fronts` are the leading fronts of the population for a ranking
+   `rank`, no individual of a strictly better front than a selected one is left out *)
+Theorem C07_nsga3_front_priority : forall (pop : list nat) (rank : nat -> nat)
+    (fronts : list (list nat)) (k R : nat) (niches : list nat) (dist : list Q) draws,
+  fronts <> [] -> NoDup (concat fronts) ->
+  (forall r x, r < length fronts -> (In x (nth r fronts []) <-> In x pop /\ rank x = r)) ->
+  length niches = length (concat fronts) -> Forall (fun c => c < R) niches ->
+  length (concat (removelast fronts)) < k <= length (concat fronts) ->
+  let o := nsga3_core q_ltb 0%Q fronts k R niches dist draws in
+  forall x y, In x pop -> In y (o_chosen o) -> rank x < rank y -> In x (o_chosen o).
+Proof. intros. eapply (nsga3_front_priority q_ltb 0%Q pop rank); eauto. Qed.
+Print Assumptions C07_nsga3_front_priority.
+
+(* association: the first reference direction of minimal distance ... *)
+Theorem C07_associate_argmin : forall (refs : list (list Q)) (fn : list Q), refs <> [] ->
+  let j := associate_one q_ops refs fn in
+  j < length refs /\
+  forall j', j' < length refs ->
+    (perp_d2 q_ops fn (nth j refs []) <= perp_d2 q_ops fn (nth j' refs []))%Q /\
+    (j' < j -> (perp_d2 q_ops fn (nth j refs []) < perp_d2 q_ops fn (nth j' refs []))%Q).
+Proof. exact associate_one_argmin. Qed.
+Print Assumptions C07_associate_argmin.
+
+(* ... where perp_d2 is the squared perpendicular distance: no point t*r of the reference line is
+   closer to fn *)
+Theorem C07_perp_d2_is_line_distance : forall (fn r : list Q) (t : Q),
+  length fn = length r -> ~ (sdot r r == 0)%Q ->
+  (perp_d2 q_ops fn r <= line_d2 t fn r)%Q /\
+  (perp_d2 q_ops fn r == line_d2 (sdot fn r / sdot r r) fn r)%Q.
+Proof. intros fn r t L H. split; [now apply perp_d2_minimal|apply perp_d2_line]. Qed.
+Print Assumptions C07_perp_d2_is_line_distance.
+
+(* ================================================================== *)
+(* reference points (DESIGN A8) *)
+
+Theorem C07_ref_points_count : forall nobj p sc, 1 <= nobj ->
+  length (ref_points_q nobj p sc) = binom (nobj + p - 1) p.
+Proof. exact ref_points_count. Qed.
+Print Assumptions C07_ref_points_count.
+
+(* binom is the binomial coefficient *)
+Theorem C07_binom_fact : forall n k, k <= n -> binom n k * (fact k * fact (n - k)) = fact n.
+Proof. exact binom_fact. Qed.
+Print Assumptions C07_binom_fact.
+
+Theorem C07_ref_points_rows : forall nobj p row, 1 <= nobj -> 1 <= p ->
+  In row (ref_points_q nobj p None) ->
+  length row = nobj /\ Forall (fun x => (0 <= x)%Q) row /\ (qsum row == 1)%Q.
+Proof. exact ref_points_rows. Qed.
+Print Assumptions C07_ref_points_rows.
+
+Theorem C07_ref_points_distinct : forall nobj p i j, 1 <= p ->
+  let pts := ref_points_q nobj p None in
+  i < length pts -> j < length pts -> i <> j -> ~ Forall2 Qeq (nth i pts []) (nth j pts []).
+Proof. exact ref_points_distinct. Qed.
+Print Assumptions C07_ref_points_distinct.
+
+Theorem C07_ref_points_scaled_rows : forall nobj p s row, 1 <= nobj -> 1 <= p -> (0 <= s)%Q -> (s <= 1)%Q ->
+  In row (ref_points_q nobj p (Some s)) ->
+  length row = nobj /\ Forall (fun x => (0 <= x)%Q) row /\ (qsum row == 1)%Q.
+Proof. exact ref_points_scaled_rows. Qed.
+Print Assumptions C07_ref_points_scaled_rows.
+
+(* ================================================================== *)
+(* non-vacuity: the hypotheses are satisfiable and the branches are reached *)
+Example C07_nonvacuous_spea2_trunc :
+  let v := [[0; 3]; [1; 2]; [2; 1]; [3; 0]]%Z in
+  let vq := map (map inject_Z) v in
+  let w := map (map (fun z => QF (inject_Z (- z)))) v in
+  length (nd_list qx_ops w) = 4 /\ fst (spea2 qx_ops (map (map QF) vq) w 3 []) = [0; 2; 3].
+Proof. vm_compute. split; reflexivity. Qed.
+
+Example C07_nonvacuous_spea2_fill :
+  let v := [[0; 0]; [1; 1]; [2; 2]; [3; 3]; [4; 4]]%Z in
+  let vq := map (map inject_Z) v in
+  let w := map (map (fun z => QF (inject_Z (- z)))) v in
+  length (nd_list qx_ops w) = 1 /\ fst (spea2 qx_ops (map (map QF) vq) w 3 [2; 1]%Z) = [0; 1; 2].
+Proof. vm_compute. split; reflexivity. Qed.
+
+Example C07_nonvacuous_niching :
+  let s := niching q_ltb 0%Q 3 [0; 0; 1; 2; 2] [1#2; 1#3; 1#4; 1#5; 1#6]%Q [1; 0; 0] [[0]; [0]; [0; 1]; [0]] in
+  niching_ok 3 s = true /\ ns_sel s = [4; 2; 3] /\ ns_counts s = [1; 1; 2].
+Proof. vm_compute. repeat split; reflexivity. Qed.
+
+Example C07_nonvacuous_refs : ref_num 3 2 = [[0; 0; 2]; [0; 1; 1]; [0; 2; 0]; [1; 0; 1]; [1; 1; 0]; [2; 0; 0]] /\ binom 4 2 = 6.
+Proof. vm_compute. split; reflexivity. Qed.
